@@ -570,7 +570,7 @@ type vBookOpts struct {
 	Layout     vLayoutOpts
 	Notes      bool
 	NBasics    int
-	NoWide     bool // never add the occasional pair of 30-60 element recipes
+	NoWide     bool     // never add the occasional pair of 30-60 element recipes
 	PathSegs   []string // segment alphabet for Paths (default a, b, c, dd, "e f")
 	PathMax    int      // maximum number of segments (default 3)
 	NoTwins    bool     // never add the pair of recipes whose glued (recipe, element) texts coincide
@@ -748,6 +748,18 @@ func vGenBook(t *rapid.T, o vBookOpts, label string) (vDoc, vBookInfo) {
 		recs = append(recs,
 			vRec{Head: a, HL: vGenHeadLayout(t, o.Layout, label+".twhl"), Lines: []vLine{{Kind: vkEntry, Name: b + sep + c, Num: num(label + ".twv1"), L: vGenEntryLayout(t, o.Layout, label+".twel")}}},
 			vRec{Head: a + sep + b, HL: vGenHeadLayout(t, o.Layout, label+".twhl"), Lines: []vLine{{Kind: vkEntry, Name: c, Num: num(label + ".twv2"), L: vGenEntryLayout(t, o.Layout, label+".twel")}}})
+		nrec = len(recs)
+	}
+	// one decimal-mode book in 10 holds a sub-recipe whose element gets two tiny contributions, and a parent that scales
+	// it by 1e8 or more: an intermediate total far below any printed digit that matters once it is multiplied
+	if !o.Exact && !o.NoTwins && len(basics) > 0 && rapid.IntRange(0, 9).Draw(t, label+".tiny") == 0 {
+		e := basics[rapid.IntRange(0, len(basics)-1).Draw(t, label+".tinyel")]
+		tiny := [][2]string{{"0.0000000003", "0.0000000005"}, {"3e-10", "5e-10"}, {"0.00000000001", "0.00000000002"}, {"7e-10", "-2e-10"}}[rapid.IntRange(0, 3).Draw(t, label+".tinyv")]
+		huge := []string{"100000000", "1e9", "250000000", "1e11"}[rapid.IntRange(0, 3).Draw(t, label+".hugev")]
+		plain := vLayout{Indent: "  ", Sep: ": ", EOL: "\n"}
+		recs = append(recs,
+			vRec{Head: "tiny~sub", HL: vLayout{EOL: "\n"}, Lines: []vLine{{Kind: vkEntry, Name: e, Num: tiny[0], L: plain}, {Kind: vkEntry, Name: e, Num: tiny[1], L: plain}}},
+			vRec{Head: "huge~parent", HL: vLayout{EOL: "\n"}, Lines: []vLine{{Kind: vkEntry, Name: "tiny~sub", Num: huge, L: plain}}})
 		nrec = len(recs)
 	}
 	// declaration order: random permutation
